@@ -271,6 +271,40 @@ def f_copyspan(F, res):
     res.floor("analysis diagnostic constructions", n, 4)
 
 
+def f_frozen(F, res):
+    """F-FROZEN: once built, a parse diagnostic's source text and span are not edited.  The span was computed against the text
+    the diagnostic carries; any later change of either (`src.truncate(..)`, a reassigned `span`, a `&mut` handed to a string
+    method) can leave the span pointing outside the text or into the middle of a character.  In tx3-lang no statement assigns
+    to a field of parsing::Error, and no `&mut` of its `src` / `span` field is taken, outside the aggregate that constructs
+    the error."""
+    PERR = "tx3_lang::parsing::Error"
+    n = 0
+    bad = []
+    for p, f in sorted(F.fns.items()):
+        if f["crate"] != "tx3_lang" or f.get("derived"):
+            continue
+        for bi, si, st in mir.stmts(f):
+            if f["blocks"][bi]["cleanup"]:
+                continue
+            flds = [q for q in st["lhs"]["p"] if q[0] == "f" and q[2] == PERR]
+            if flds:
+                bad.append((f, st["line"], "assigns to `%s`" % flds[0][1]))
+            rv = st["rv"]
+            if rv["k"] in ("ref", "rawptr") and rv.get("mut"):
+                flds = [q for q in rv["pl"]["p"] if q[0] == "f" and q[2] == PERR]
+                if flds:
+                    bad.append((f, st["line"], "takes `&mut %s`" % flds[0][1]))
+            if rv["k"] == "agg" and rv.get("adt") == PERR:
+                n += 1
+    key = "tx3_lang::parsing::Error|source text and span are not edited after construction"
+    if bad:
+        f, line, what = bad[0]
+        res.add([finding("F-FROZEN", "%s|edits a parse diagnostic" % f["path"], where(f, line), "%s %s of an already built parse diagnostic: its span was computed against the original text and may now point outside of it (or into the middle of a character)" % (f["path"].split("::")[-1], what))])
+    else:
+        res.add([ok("F-FROZEN", key, "crates/tx3-lang/src/parsing.rs", "%d construction(s); no later assignment or `&mut` of a field" % n)])
+    res.floor("parse diagnostic constructions", n, 1)
+
+
 def run(ctx):
     F = ctx.F
     res = Result("C19")
@@ -282,5 +316,7 @@ def run(ctx):
     f_spanctor(F, res)
     f_sameid(F, res)
     f_copyspan(F, res)
+    res.rule("F-FROZEN", "a parse diagnostic's source text and span are not edited after it was built")
+    f_frozen(F, res)
     res.add([assumption("PEST", "pest spans", "crates/tx3-lang/src/parsing.rs", "pest::Span / InputLocation offsets satisfy start <= end <= input length on char boundaries (so `end - start` in From<Span> for SourceSpan cannot underflow)")])
     return res
